@@ -530,3 +530,11 @@ async fn proxy_tcp_connection_data_forwarding(
 
     Ok(())
 }
+
+/// Verification wrapper of the private destination parser: reads the SOCKS-style
+/// destination header from `stream` exactly as the proxy handler does.
+#[cfg(feature = "verif")]
+pub async fn verif_read_socks_addr(stream: Arc<Stream>) -> Result<(String, u16)> {
+    let a = read_socks_addr(stream).await?;
+    Ok((a.addr, a.port))
+}
